@@ -131,12 +131,14 @@ PartHeaderLen(a, b, L, blen, hl) ==
 TrailerLen(blen) == 2 + 2 + blen + 2 + 2
 
 \* exact length of the multipart body for parts R, with u64 overflow detection
-RECURSIVE MultipartLen(_, _, _, _)
-MultipartLen(R, i, L, hl) ==
-  IF i > Len(R) THEN [v |-> N(TrailerLen(1)), of |-> FALSE]
-  ELSE LET rest == MultipartLen(R, i + 1, L, hl)
-           s == Add(Add(rest.v, N(PartHeaderLen(R[i].a, R[i].b, L, 1, hl))), Size(R[i].a, R[i].b))
+RECURSIVE MultipartLenB(_, _, _, _, _)
+MultipartLenB(R, i, L, hl, blen) ==
+  IF i > Len(R) THEN [v |-> N(TrailerLen(blen)), of |-> FALSE]
+  ELSE LET rest == MultipartLenB(R, i + 1, L, hl, blen)
+           s == Add(Add(rest.v, N(PartHeaderLen(R[i].a, R[i].b, L, blen, hl))), Size(R[i].a, R[i].b))
        IN IF rest.of \/ ~IsU64(s) THEN [v |-> Zero, of |-> TRUE] ELSE [v |-> s, of |-> FALSE]
+\* with the code's one-character boundary
+MultipartLen(R, i, L, hl) == MultipartLenB(R, i, L, hl, 1)
 
 \* (a multipart body whose exact length does not fit in 64 bits cannot be announced; the code
 \* answers 413, which C13 lists; C03 accepts it in exactly that situation)
@@ -147,7 +149,8 @@ HeadMatchesShape(L, sh, h, ent) ==
                           /\ h.cr.a = sh.parts[1].a /\ h.cr.b = sh.parts[1].b /\ h.cr.l = L
     [] sh.k = "multi" -> \/ ObsKind(h) = "multi" /\ ~MustNotMultipart(L, sh.parts)
                          \/ ObsKind(h) = "full" /\ ~MustMultipart(L, sh.parts)
-                         \/ h.status = 413 /\ \E hl \in {0, ent.hl} : MultipartLen(sh.parts, 1, L, hl).of
+                         \* (whatever the boundary: 70 characters is the longest RFC 2046 allows)
+                         \/ h.status = 413 /\ \E hl \in {0, ent.hl} : MultipartLenB(sh.parts, 1, L, hl, 70).of
 
 MethodOK(req) == req.mclass \in {"get", "head"}
 
@@ -456,34 +459,38 @@ BodyFailures(req, h, bs, toks, drained) ==
       readings == RangeReadings(req.abs.range)
       rdom == C03_Domain(req)
       blen == IF h.ct.k = "multipart" THEN h.ct.blen ELSE 0
-      withH == req.abs.ifr.k = "none"
-      eh == IF withH THEN [hl |-> req.ent.hl, nh |-> req.ent.nh] ELSE [hl |-> 0, nh |-> 0]
-      ptoks == ProjToks(toks, withH)
+      ptoks0 == ProjToks(toks, TRUE)
   IN
   {id \in Enforce :
      \* --- C02: exactly the bytes the head names
      \/ id = "C02" /\ kind = "full" /\ honest /\
            LET exp == IF IsZero(L) THEN <<>> ELSE <<D(0, IF IsSmall(L) THEN ToNat(L) ELSE B)>>
-           IN ~TokPrefix(ptoks, exp) \/ (clean /\ IsSmall(L) /\ ptoks # exp)
+           IN ~TokPrefix(ptoks0, exp) \/ (clean /\ IsSmall(L) /\ ptoks0 # exp)
      \/ id = "C02" /\ kind = "single" /\ honest /\ h.cr.k = "range" /\ Le(h.cr.a, h.cr.b) /\
            LET sz == Size(h.cr.a, h.cr.b)
                exp == <<D(Mod251(h.cr.a), IF IsSmall(sz) THEN ToNat(sz) ELSE B)>>
-           IN ~TokPrefix(ptoks, exp) \/ (clean /\ IsSmall(sz) /\ ptoks # exp)
+           IN ~TokPrefix(ptoks0, exp) \/ (clean /\ IsSmall(sz) /\ ptoks0 # exp)
      \* --- C03: a multipart body carries exactly the resolved ranges, in request order
      \/ id = "C03" /\ kind = "multi" /\ clean /\ rdom /\
            ~\E r \in readings : LET sh == ShapeOf(L, r) IN sh.k = "multi" /\ PHParts(toks) = sh.parts
      \* --- C06: the whole multipart structure, and its announced length
+     \* (without If-Range every part carries the entity's own headers; with a matching If-Range the
+     \*  property leaves open whether it carries them or none -- but never anything else)
      \/ id = "C06" /\ kind = "multi" /\ rdom /\ honest /\
-           ~\E r \in readings :
-               LET sh == ShapeOf(L, r) IN
+           ~\E r \in readings, withH \in (IF req.abs.ifr.k = "none" THEN {TRUE} ELSE {TRUE, FALSE}) :
+               LET sh == ShapeOf(L, r)
+                   eh == IF withH THEN [hl |-> req.ent.hl, nh |-> req.ent.nh] ELSE [hl |-> 0, nh |-> 0]
+                   ptoks == ProjToks(toks, TRUE)
+               IN
                /\ sh.k = "multi"
                /\ IF SmallSizes(sh.parts)
                   THEN LET exp == MultipartTokens(sh.parts, 1, L, blen, eh)
                        IN /\ TokPrefix(ptoks, exp)
                           /\ clean => (ptoks = exp /\ (withH => PartHdrsAre(toks, req.ent.hdrs)))
+                          /\ withH => \A i \in DOMAIN toks : toks[i].t = "PH" => PartHdrsAre(<<toks[i]>>, req.ent.hdrs)
                           /\ h.cl.k = "num" /\ h.cl.v = N(SumTokLens(exp, 1))
                   ELSE \* parts too long to drain: the announced length must still be the exact one
-                       LET ml == MultipartLen(sh.parts, 1, L, eh.hl)
+                       LET ml == MultipartLenB(sh.parts, 1, L, eh.hl, blen)
                        IN h.cl.k = "num" /\ ~ml.of /\ h.cl.v = ml.v
   }
 
